@@ -1123,6 +1123,18 @@ impl endpoint::Session for Session {
     }
 }
 
+#[cfg(fe2o3_amqp_verif)]
+pub(crate) fn verif_num_messages_settled_by_disposition(first: u32, last: Option<u32>) -> u32 {
+    num_messages_settled_by_disposition(first, last)
+}
+
+#[cfg(fe2o3_amqp_verif)]
+impl Session {
+    pub(crate) fn verif_on_outgoing_session_flow(&self) -> SessionFrame {
+        self.on_outgoing_session_flow()
+    }
+}
+
 fn num_messages_settled_by_disposition(first: u32, last: Option<u32>) -> u32 {
     last.and_then(|last| last.checked_sub(first)).unwrap_or(0) + 1
 }
